@@ -1,4 +1,5 @@
 import FlatccModel.NumProofs
+import FlatccModel.Generated.Consts
 /-!
 # Schema numeric literals (`parser.c: read_integer_value / read_hex_value`, `pparseint.h`,
 `coerce.c: fb_coerce_scalar_type`, `semantics.c: process_enum` numbering)
@@ -180,5 +181,23 @@ def enumFlagValues (st : STy) : Option Val → List (Option Val) → Option (Lis
         match valInt v', enumFlagValues st (some v) rest with
         | some i, some r => some (i :: r)
         | _, _ => none
+
+/-! ### `force_align` (`semantics.c: is_valid_align`, `process_struct`, `analyze_struct`) -/
+
+/-- the loop of `is_valid_align`: `n = 1; while (n <= align) { if (n == align) return 1; n *= 2; }` -/
+def validLoop : Nat → Nat → Nat → Bool
+  | 0, _, _ => false
+  | f+1, n, a => if n ≤ a then (if n = a then true else validLoop f (2 * n) a) else false
+
+/-- `is_valid_align(uint64_t align)`: the attribute's 64-bit value, not a narrowed copy of it -/
+def isValidAlign (a : Nat) : Bool :=
+  if a = 0 ∨ a > Flatcc.Consts.forceAlignMax then false else validLoop 64 1 a
+
+/-- `struct S (force_align: <literal>)` over members whose natural alignment is `natural`: the attribute must be an unsigned
+literal (known attribute of type `vt_uint`), a valid alignment, and not below the natural alignment; the struct then has it -/
+def forceAlign (l : Lit) (natural : Nat) : Option Nat :=
+  match readLit l with
+  | .uint u => if isValidAlign u && decide (natural ≤ u) then some u else none
+  | _ => none
 
 end Flatcc.SchemaNum
